@@ -1,6 +1,7 @@
 import os
 import stat
 from typing import Iterable, Optional
+from urllib.parse import quote
 
 from baize import staticfiles
 from baize.datastructures import URL
@@ -114,7 +115,8 @@ class Pages(Files):
             if stat.S_ISDIR(stat_result.st_mode) and not path.endswith("/"):
                 try:
                     url = URL(environ=environ)
-                    url = url.replace(scheme="", path=url.path + "/")
+                    # (the path is decoded text: a literal '%' or a space is quoted again)
+                    url = url.replace(scheme="", path=quote(url.path, safe="/") + "/")
                 except ValueError:  # malformed Host header, non-UTF-8 path or query
                     raise HTTPException(400, content="Malformed request URL") from None
                 return RedirectResponse(url)(environ, start_response)
